@@ -150,9 +150,13 @@ class TaskPrecedence(TaskConstraint):
 
         if self.task_before.optional or self.task_after.optional:
             # both tasks must be scheduled so that the precedence constraint applies
+            # (a task group has no scheduled flag: it is always present)
             self.set_z3_assertions(
                 z3.Implies(
-                    z3.And(self.task_before._scheduled, self.task_after._scheduled),
+                    z3.And(
+                        getattr(self.task_before, "_scheduled", True),
+                        getattr(self.task_after, "_scheduled", True),
+                    ),
                     scheduled_assertion,
                 )
             )
